@@ -356,3 +356,36 @@ for _pn, _pf in _nest_positions().items():
         CLASSES["nest_%s_%d" % (_pn, _d)] = (lambda f, d: lambda r: f(d))(_pf, _d)
 for _d in NEST_DEPTHS:
     V1_CLASSES["v1_nest_extra_%d" % _d] = (lambda d: lambda r: b'{"command":"getPubKey","version":1,"keyId":"m/44\'/0\'/0\'/0/0","x":' + _nested(d) + b"}")(_d)
+
+
+# ---- the same header strings offered to both block commands (whatever one command remembers about a header must
+# ---- not be what the other one uses): fixed content, so that the classes below share it
+def _reuse_material():
+    import random as _random
+    r = _random.Random("reuse-headers")
+    full = reqs.blocks(r, 2, True, bro_counts=[0, 0])
+    nomm = [enc.rlp_encode(enc.header_no_mm(b["fields"], True)).hex() for b in full]
+    return [b["raw"].hex() for b in full], nomm
+
+
+_REUSE = {}
+
+
+def _reuse(kind):
+    if not _REUSE:
+        _REUSE["full"], _REUSE["nomm"] = _reuse_material()
+    f, n = _REUSE["full"], _REUSE["nomm"]
+    return {
+        "reuse_anc_nomm": {"command": "updateAncestorBlock", "version": 5, "blocks": list(n)},
+        "reuse_anc_full": {"command": "updateAncestorBlock", "version": 5, "blocks": list(f)},
+        "reuse_adv_full": {"command": "advanceBlockchain", "version": 5, "blocks": list(f), "brothers": [[], []]},
+        "reuse_adv_nomm_block": {"command": "advanceBlockchain", "version": 5, "blocks": [n[0]], "brothers": [[]]},
+        "reuse_adv_nomm_brother": {"command": "advanceBlockchain", "version": 5, "blocks": [f[0]], "brothers": [[n[1]]]},
+        "reuse_adv_full_as_brother": {"command": "advanceBlockchain", "version": 5, "blocks": [f[0]], "brothers": [[f[1]]]},
+    }[kind]
+
+
+REUSE_CLASSES = ["reuse_anc_nomm", "reuse_anc_full", "reuse_adv_full", "reuse_adv_nomm_block", "reuse_adv_nomm_brother",
+                 "reuse_adv_full_as_brother"]
+for _k in REUSE_CLASSES:
+    CLASSES[_k] = (lambda k: lambda r: J(_reuse(k)))(_k)
